@@ -59,14 +59,16 @@ theorem handleTag_tag (cfg : Cfg) {d : Delims} (gd : Good d) (lead : List Out) (
     cases kind with
     | var ts =>
       simp only [tagOk, Bool.and_eq_true] at hcom
-      exact handleTag_var cfg gd lead ts l r preTag t' more hcom.1
+      exact handleTag_var cfg gd lead ts l r preTag t' more hcom.1.1 hcom.2
     | block ts =>
       simp only [tagOk, Bool.and_eq_true, Bool.not_eq_true'] at hcom
-      exact handleTag_block cfg gd lead ts l r preTag t' more hm hcom.1.1 hcom.2
+      exact handleTag_block cfg gd lead ts l r preTag t' more hm hcom.1.1.1 hcom.1.2 hcom.2
     | comment body =>
       simp only [tagOk, Bool.and_eq_true] at hcom
       exact handleTag_comment cfg gd lead body l r preTag t' more hm hcom.1.1 hcom.2
-    | raw c ri l2 tight => exact handleTag_raw cfg gd lead c ri l2 tight l r preTag t' more hm hfree
+    | raw c ri l2 tight =>
+      simp only [tagOk, Bool.and_eq_true] at hcom
+      exact handleTag_raw cfg gd lead c ri l2 tight l r preTag t' more hm hfree hcom.1 hcom.2
     | lineStmt ts =>
       obtain ⟨rfl, rfl⟩ := line_marks hcom rfl
       simp only [tagOk, Bool.and_eq_true, Bool.not_eq_true', List.isEmpty_eq_false_iff] at hcom
@@ -85,20 +87,19 @@ theorem handleTag_tag (cfg : Cfg) {d : Delims} (gd : Good d) (lead : List Out) (
       simpa [nextKG, nextK, cfgFor, Tag.isLine, Tag.blockish, nextTf, hmm, tagOuts, Tag.marker, Tag.start, Mark.ws, Ws.len] using this
 
 /-- `bodyStartOk`: behind an unmarked opening side there is no `-`/`+` -/
-theorem wsOfChar_body (body : List Char) (l r : Mark) (e z : List Char) (he : headOk e = true)
-    (h : bodyStartOk body l r = true) :
+theorem wsOfChar_body (body : List Char) (l r : Mark) (e z : List Char) (he : e ≠ [])
+    (h : bodyStartOk body l r e = true) :
     wsOfChar (l.src ++ (body ++ (r.src ++ (e ++ z)))).head? = l.ws := by
-  obtain ⟨e0, er, hce, _, _, hm3, hm4⟩ := headOk_cons he
   cases l with
   | minus => simp [Mark.src, Mark.ws, wsOfChar]
   | plus => simp [Mark.src, Mark.ws, wsOfChar]
   | none =>
     simp only [bodyStartOk, bne_self_eq_false, Bool.false_or] at h
-    have hsrc : Mark.none.src ++ (body ++ (r.src ++ (e ++ z))) = (body ++ r.src) ++ (e ++ z) := by
+    have hsrc : Mark.none.src ++ (body ++ (r.src ++ (e ++ z))) = (body ++ (r.src ++ e)) ++ z := by
       simp [Mark.src, List.append_assoc]
     rw [hsrc]
-    cases hbr : body ++ r.src with
-    | nil => simp [hce, Mark.ws, wsOfChar, hm3, hm4]
+    cases hbr : body ++ (r.src ++ e) with
+    | nil => exact absurd (by simpa using hbr : _ ∧ _ ∧ e = []).2.2 he
     | cons c0 y0 =>
       have : isMarkChar c0 = false := by
         rw [hbr] at h; simpa using h
@@ -114,11 +115,11 @@ theorem Tag.ws_head {d : Delims} (gd : Good d) (g : Tag) (z : List Char) (hcom :
     cases kind with
     | var ts =>
       simp only [tagOk, Bool.and_eq_true] at hcom
-      have := wsOfChar_body (srcs ts) l r d.ve z gd.ve hcom.2
+      have := wsOfChar_body (srcs ts) l r d.ve z (headOk_ne gd.ve) hcom.1.2
       simpa [Tag.after, Tag.marker, List.append_assoc] using this
     | block ts =>
       simp only [tagOk, Bool.and_eq_true] at hcom
-      have := wsOfChar_body (srcs ts) l r d.be z gd.be hcom.1.2
+      have := wsOfChar_body (srcs ts) l r d.be z (headOk_ne gd.be) hcom.1.1.2
       simpa [Tag.after, Tag.marker, List.append_assoc] using this
     | comment body =>
       simp only [tagOk, Bool.and_eq_true] at hcom
@@ -152,24 +153,25 @@ theorem Tag.src_ne_nil {d : Delims} (gd : Good d) (g : Tag) (z : List Char) (hok
   obtain ⟨c, r, h, _⟩ := own_cons gd (g.own z hok)
   simp [Tag.src, h]
 
-/-- a tag that is not a line statement / line comment ends in a character that is not whitespace -/
+/-- a tag that is not a line statement / line comment ends in a character that is not whitespace,
+    possibly followed by horizontal whitespace (of its end delimiter) -/
 theorem Tag.src_rev_head {d : Delims} (gd : Good d) (g : Tag) (hl : g.isLine = false) :
-    ∃ c r, (g.src d).reverse = c :: r ∧ isWs c = false := by
+    ∃ u c r, (g.src d).reverse = u ++ c :: r ∧ (∀ x ∈ u, isHws x = true) ∧ isWs c = false := by
   cases g with
   | mk kind l r =>
     cases kind with
     | var ts =>
-      obtain ⟨c, rr, h, hw⟩ := lastOk_rev gd.lve
-      exact ⟨c, _, by simp [Tag.src, Tag.after, List.reverse_append, h]; rfl, hw⟩
+      obtain ⟨u, c, rr, h, hu, hw⟩ := lastOk_rev gd.lve
+      exact ⟨u, c, _, by simp [Tag.src, Tag.after, List.reverse_append, h]; rfl, hu, hw⟩
     | block ts =>
-      obtain ⟨c, rr, h, hw⟩ := lastOk_rev gd.lbe
-      exact ⟨c, _, by simp [Tag.src, Tag.after, List.reverse_append, h]; rfl, hw⟩
+      obtain ⟨u, c, rr, h, hu, hw⟩ := lastOk_rev gd.lbe
+      exact ⟨u, c, _, by simp [Tag.src, Tag.after, List.reverse_append, h]; rfl, hu, hw⟩
     | comment body =>
-      obtain ⟨c, rr, h, hw⟩ := lastOk_rev gd.lce
-      exact ⟨c, _, by simp [Tag.src, Tag.after, List.reverse_append, h]; rfl, hw⟩
+      obtain ⟨u, c, rr, h, hu, hw⟩ := lastOk_rev gd.lce
+      exact ⟨u, c, _, by simp [Tag.src, Tag.after, List.reverse_append, h]; rfl, hu, hw⟩
     | raw cc ri l2 tight =>
-      obtain ⟨c, rr, h, hw⟩ := lastOk_rev gd.lbe
-      exact ⟨c, _, by simp [Tag.src, Tag.after, List.reverse_append, h]; rfl, hw⟩
+      obtain ⟨u, c, rr, h, hu, hw⟩ := lastOk_rev gd.lbe
+      exact ⟨u, c, _, by simp [Tag.src, Tag.after, List.reverse_append, h]; rfl, hu, hw⟩
     | lineStmt ts => simp [Tag.isLine] at hl
     | lineComment b => simp [Tag.isLine] at hl
 
@@ -349,8 +351,8 @@ theorem lexGo_spec (cfg : Cfg) (vm bm : List Char) {d : Delims} (gd : Good d)
           intro hne
           cases hgl : g.isLine with
           | false =>
-            obtain ⟨c, r, h, hw⟩ := Tag.src_rev_head gd g hgl
-            exact Or.inl (Or.inr ⟨rfl, c, r ++ (t.reverse ++ ctx), by simp [h], hw⟩)
+            obtain ⟨u, c, r, h, hu, hw⟩ := Tag.src_rev_head gd g hgl
+            exact Or.inl (Or.inr ⟨rfl, u, c, r ++ (t.reverse ++ ctx), by simp [h], hu, hw⟩)
           | true =>
             right
             apply line_text_has_nl hcom hgl
